@@ -157,12 +157,13 @@ pub(super) fn stack_fwd(
         "swap" => {
             let n = stack.len();
             if n > 1 {
-                stack.swap(n - 1, n - 2)
-            }
-            if n == 0 {
-                0
+                stack.swap(n - 1, n - 2);
+                operands.len()
             } else {
-                stack[0].len()
+                // In case of underflow, we stomp on all input coordinates
+                warn!("Stack swap underflow in pipeline");
+                operands.stomp();
+                0
             }
         }
 
@@ -219,12 +220,13 @@ pub(super) fn stack_inv(
         "swap" => {
             let n = stack.len();
             if n > 1 {
-                stack.swap(n - 1, n - 2)
-            }
-            if n == 0 {
-                0
+                stack.swap(n - 1, n - 2);
+                operands.len()
             } else {
-                stack[0].len()
+                // In case of underflow, we stomp on all input coordinates
+                warn!("Stack swap underflow in pipeline");
+                operands.stomp();
+                0
             }
         }
 
